@@ -87,7 +87,7 @@ theorem master_unreach (p : Profile) (i : Input) (h : domUnreach i = true) :
       -- from buildable
       have hb' := hb
       simp only [buildable, hm, Bool.and_eq_true] at hb'
-      obtain ⟨⟨⟨⟨hsl, hsr⟩, _⟩, _⟩, ⟨⟨hfok, hfneg⟩, hents⟩⟩ := hb'
+      obtain ⟨⟨⟨⟨hsl, hsr⟩, _⟩, _⟩, ⟨⟨⟨hfok, hfneg⟩, _⟩, hents⟩⟩ := hb'
       have hneg := negAgree_of i f hsl hsr hfneg
       simp only [negAgree, Bool.and_eq_true, beq_iff_eq] at hneg
       obtain ⟨⟨hrx, hap⟩, hext⟩ := hneg
@@ -170,15 +170,12 @@ theorem master_reach (p : Profile) (i : Input) (h : domReach i = true) :
       -- from buildable
       have hb' := hb
       simp only [buildable, hm, Bool.and_eq_true, Bool.or_eq_true] at hb'
-      obtain ⟨⟨⟨⟨hsl, hsr⟩, _⟩, _⟩, ⟨⟨⟨⟨⟨⟨⟨hfok, hfneg⟩, hnhb⟩, hattrs⟩, hnd⟩, hres⟩, h12⟩, hents⟩⟩ := hb'
+      obtain ⟨⟨⟨⟨hsl, hsr⟩, _⟩, _⟩, ⟨⟨⟨⟨⟨⟨⟨⟨⟨hfok, hfneg⟩, hnhb⟩, hattrs⟩, hnd⟩, hres⟩, _⟩, hc1⟩, hc2⟩, hents⟩⟩ := hb'
       have hneg := negAgree_of i f hsl hsr hfneg
       simp only [negAgree, Bool.and_eq_true, beq_iff_eq] at hneg
       obtain ⟨⟨hrx, hap⟩, hext⟩ := hneg
       simp only [famOk, Bool.and_eq_true, decide_eq_true_eq] at hfok
-      have h12' : hasCode 1 attrs = true ∧ hasCode 2 attrs = true := by
-        rcases h12 with h | h
-        · rw [h] at hne; cases hne
-        · exact h
+      have h12' : hasCode 1 attrs = true ∧ hasCode 2 attrs = true := ⟨hc1, hc2⟩
       have hok : AttrsOk attrs := attrsOk_of attrs hattrs hnd hres
       have hes : ∀ e ∈ es, IpEntryOk v6 e := fun e he =>
         (entryOk_ip i f v6 e hv6 (List.all_eq_true.mp hents e he)).1
@@ -218,9 +215,10 @@ theorem master_reach (p : Profile) (i : Input) (h : domReach i = true) :
           rw [← hmaxE] at this
           omega
         -- the next hop is an IPv4 address
-        have hcond : (Fam.ipv4 == Fam.ipv4) = true ∧ (!extNhNegotiated i) = true := ⟨rfl, by simp [hleg'.2]⟩
         obtain ⟨⟨_, hnhok⟩, hnhv4⟩ := hnhb
-        rw [if_pos hcond] at hnhv4
+        have hafi : (Fam.ipv4.afi == 1) = true := rfl
+        have hne4 : enhNegotiated i Fam.ipv4 = false := hleg'.2
+        rw [if_pos hafi, hne4] at hnhv4
         cases nh with
         | v6 a => simp at hnhv4
         | v6ll g l => simp at hnhv4
@@ -252,16 +250,17 @@ theorem master_reach (p : Profile) (i : Input) (h : domReach i = true) :
           apply hleg
           rw [hext] at h2
           simp [h1, h2]
-        have hnv4 : nhIsV4 nh = false := by
-          rcases hnhc with h | h
+        have hnv4 : nhIsV4 nh = false ∨ nhAsIs f = true := by
+          rcases hnhc with (h | h) | h
           · exfalso; apply hleg; simp [h.1, h.2]
-          · exact h
+          · exact Or.inl h
+          · exact Or.inr h
         have hlegF : (f == Fam.ipv4 && !extNhNegotiated i) = false := by
           cases hh : (f == Fam.ipv4 && !extNhNegotiated i) with
           | true => exact absurd hh hleg
           | false => rfl
         have hnhok : nhOk nh = true := hnhb.1.2
-        have hnhmp : NhMp nh := nhMp_of nh hnhok hnv4
+        have hnhmp : NhMp f nh := nhMp_of f nh hnhok hnv4
         have hvpn : isVpn f = false := (nhPart_ip f v6 hv6).2
         have hfit' : FitS (negotiate i.loc i.rem).maxLen 0 ((negotiate i.loc i.rem).addpathTx f)
             (23 + (attrBlock4 attrs).length + 4 + (5 + nh.bytes.length)) es := by
